@@ -33,8 +33,25 @@ SIM_EXITS = (SimRaise, GeneratorExit)
 _NONCE = [""]  # identifies the run a handler was made in (request types are the same objects in every run of a process)
 
 
+class _RecordingHandler:
+    """A handler OBJECT that keeps what it has served (a buffering / recording callable): it has a length, and while it has
+    served nothing it is falsy."""
+
+    def __init__(self, tag, made_in):
+        self.tag, self.made_in, self.served = tag, made_in, []
+        self.__name__ = f"h_{tag}"
+
+    def __len__(self):
+        return 0  # (never fills: what matters is that truthiness is no test for "there is a handler")
+
+    def __call__(self, request):
+        return self.tag if self.made_in == _NONCE[0] else f"stale-handler-of-an-earlier-run:{self.tag}"
+
+
 def _handler(tag):
     made_in = _NONCE[0]
+    if sum(map(ord, tag)) % 2:
+        return _RecordingHandler(tag, made_in)
 
     def h(request):
         # a handler that outlived its run (process-global state of labrea that the harness does not know) shows as such
@@ -200,7 +217,7 @@ class C14(Property):
         # fresh request types per run
         types = _TYPES
         _NONCE[0] = f"{h64(case):x}"
-        shared.update({"seq": 0, "last_rereg": {}, "defaults": {}, "default_tags": {}, "holds": {}, "objs": {}, "types": types, "log": log, "nthreads": 0})
+        shared.update({"pre_defaults": list(case["pre_defaults"]), "seq": 0, "last_rereg": {}, "defaults": {}, "default_tags": {}, "holds": {}, "objs": {}, "types": types, "log": log, "nthreads": 0})
         for t in case["pre_defaults"]:
             lrt.handle_by_default(types[t], _handler(f"d{t}"))
             shared["defaults"][t] = f"d{t}"
@@ -211,7 +228,7 @@ class C14(Property):
         self._thread_script(case["ops"], res, shared, st, base_holds={}, base_obj=base_obj, label="")
         box["nontrivial"] = st["maxdepth"] >= 2 or st["exc_exit"] or st["reentry"] or st["spawned"] > 0
 
-    def _thread_script(self, script_ops, res, shared, st, base_holds, base_obj, label, inherited=False):
+    def _thread_script(self, script_ops, res, shared, st, base_holds, base_obj, label, inherited=False, frozen=None):
         """Interpret one thread's ops against its own stack model (shared: runtime objects, defaults)."""
         types, objs, holds_of, defaults, log = shared["types"], shared["objs"], shared["holds"], shared["defaults"], shared["log"]
         stack = []
@@ -223,6 +240,10 @@ class C14(Property):
             h = cur_holds()
             if t in h:
                 return h[t]
+            if not stack and t in frozen:
+                # inherit(): "the handlers its parent had at that moment" -- a default the parent's runtime has held since before
+                # the history began, and that had not been replaced when the worker inherited, stays whatever is registered later
+                return frozen[t]
             if len(shared["default_tags"].get(t, ())) > 1:
                 # re-registered default: the statement does not settle whether a runtime OBJECT created in between serves
                 # the handler it saw at creation or the latest one -> any of them (the derive-time relation below is exact).
@@ -234,6 +255,7 @@ class C14(Property):
             return defaults.get(t, "TypeError")
 
         tstate = {"rt_seq": None}
+        frozen = dict(frozen or {})
 
         def touch():
             """The thread asks for its current runtime: one is made for it now if it has none."""
@@ -331,6 +353,13 @@ class C14(Property):
                     res.bump("threads_spawned")
                     parent_thread = threading.current_thread()
                     parent_holds = dict(cur_holds())
+                    # (only where the PARENT is served unambiguously: its runtime exists -- base object or own runtime made by an
+                    #  earlier request --, holds the pre-history default in its snapshot, and nothing re-registered it so far)
+                    parent_has_rt = bool(stack) or base_obj is not None or tstate["rt_seq"] is not None or inherited
+                    frozen_for_child = {t: f"d{t}" for t in shared["pre_defaults"] if parent_has_rt and t not in parent_holds
+                                        and len(shared["default_tags"].get(t, ())) == 1}
+                    if inherited and not stack:
+                        frozen_for_child.update({t: v for t, v in frozen.items() if t not in parent_holds})
                     shared["nthreads"] += 1
                     err = {}
 
@@ -341,7 +370,8 @@ class C14(Property):
                                 lrt.inherit(parent_thread)
                                 b = parent_holds
                                 res.bump("inherit_calls")
-                            self._thread_script(op["body"], res, shared, st, base_holds=b, base_obj=None, label=f"{where}>", inherited=bool(op.get("inherit")))
+                            self._thread_script(op["body"], res, shared, st, base_holds=b, base_obj=None, label=f"{where}>", inherited=bool(op.get("inherit")),
+                                                frozen=frozen_for_child if op.get("inherit") else None)
                         except SIM_EXITS:
                             pass
                         except BaseException as e:  # noqa: BLE001
